@@ -3,9 +3,9 @@ import pv
 SPEC = {
     "targets": ["Properties/C01.vo", "Run/C01.vo"],
     "theorems": {"Properties.C01": [
-        "C01_sound_partial", "C01_rule_sound", "C01_plain_fragment_inside",
-        "C01_mask_id", "C01_key_tables", "C01_fixed_witnesses_blocked", "C01_sound_refuted_null_tag_text", "C01_sound_refuted_group_labels_alias",
-        "C01_sound_refuted_merge_not_alias", "C01_sound_refuted_tag_kind", "C01_nonvacuous", "C01_nonvacuous_alias"]},
+        "C01_sound_partial", "C01_rule_sound", "C01_rule_sound_merge", "C01_plain_fragment_inside",
+        "C01_mask_id", "C01_key_tables", "C01_fixed_witnesses_blocked", "C01_sound_refuted_null_tag_text", "C01_sound_refuted_group_labels_alias", "C01_sound_refuted_double_merge",
+        "C01_sound_refuted_merge_not_alias", "C01_sound_refuted_tag_kind", "C01_nonvacuous", "C01_nonvacuous_alias", "C01_nonvacuous_merge"]},
     "harness_args": lambda tier: (["C01", "--n", 300, "--cat", 40, "--stress", 4] if tier == "quick"
                                   else ["C01", "--n", 8000, "--cat", -1, "--stress", 40]),
     "search_args": lambda tier: ["C01", "--n", 3000, "--cat", -1, "--stress", 16],
@@ -29,8 +29,8 @@ SPEC = {
         "comments are skipped (mask_id covers the others); only the Prometheus schema (not Thanos)",
     ],
     "assumptions": [
-        "theorem restricted to the documented fragment guards_doc (no merge keys, natural tags, null-tagged scalars spell a null; aliases only as "
-        "values of rule keys and inside rule labels/annotations); outside it the property is only searched by the implementation-level "
+        "theorem restricted to the documented fragment guards_doc (natural tags, null-tagged scalars spell a null; aliases only as values of "
+        "rule keys and inside rule labels/annotations; at most one merge key `<<: *anchor` per rule mapping, none elsewhere); outside it the property is only searched by the implementation-level "
         "oracle (pint verdict vs rulefmt.Parse directly)",
         "strict_blocks models a subset of pint's Bug/Fatal problems; soundness direction: real pint passes => model does not block",
     ],
@@ -41,23 +41,26 @@ def run(ctx):
     return pv.standard(ctx, SPEC)
 
 MANIFEST = {
-    "text": "Theorem (Coq, no axioms, all oracles as premises): for every document stream inside the documented fragment (no merge keys / "
-            "explicit collection tags; yaml aliases allowed as values of rule keys and of rule labels/annotations), if the model of pint's "
+    "text": "Theorem (Coq, no axioms, all oracles as premises): for every document stream inside the documented fragment (no explicit "
+            "collection tags; yaml aliases allowed as values of rule keys and of rule labels/annotations; one merge key `<<: *anchor` per "
+            "rule), if the model of pint's "
             "strict pipeline reports no Bug/Fatal (yaml/parse, promql/syntax, alerts/for, alerts/template syntax) then the model of "
             "Prometheus' loader (yaml.v3 struct decoding with KnownFields + rulefmt Validate) accepts the same node forest; the rule-level "
             "core on its own; the alias-free fragment is an instance; the masking reader is the identity on files without pint control "
             "comments (mask_id), so both sides decode the same bytes. The guards for null record/alert/expr, nameless groups and non-int "
             "limits are gone (repaired in pint: d65cbbf, cc77cdd, a6b0afc) and their former witnesses are machine-checked to be blocked now. "
-            "The unguarded statement is machine-refuted by four witnesses that the real pint passes and the real rulefmt.Parse refuses "
-            "(`<<` merge of a non-alias, explicit tag contradicting the kind, scalar tagged !!null with text, group `labels: *alias`): "
-            "registered known findings with class predicates, the last two found this round with tested candidate patches. Only TESTED, not "
+            "The unguarded statement is machine-refuted by five witnesses that the real pint passes and the real rulefmt.Parse refuses "
+            "(`<<` merge of a non-alias, explicit tag contradicting the kind, scalar tagged !!null with text, group `labels: *alias`, two "
+            "`<<` keys in one mapping): registered known findings with class predicates, the last three found this round with tested "
+            "candidate patches. The finite key tables of both sides are regenerated from the sources on every run and checked against "
+            "the models (C01_key_tables). Only TESTED, not "
             "proved: that the models equal the implementations — both verdicts and the reader identity are compared on every case with the "
             "real pipeline and the real rulefmt.Parse on the real yaml.v3 forest; the property itself is searched directly (pint verdict vs "
             "rulefmt.Parse) on structure-aware random documents, a systematic single-deviation catalogue (every slot x YAML value shape, "
             "key dropped/duplicated/misplaced, every value as an alias of every kind of anchor, under both name validation schemes), and "
             "reader-stress files crossing 4 KiB / 64 KiB line and buffer sizes with a valid or defective tail.",
     "note": "Coq 8.16.1 kernel+VM, no axioms; models hand-written and validated by differential execution; theorem holds on the stated "
-            "fragment under named oracle hypotheses; four open known findings (pint passes, Prometheus refuses).",
+            "fragment under named oracle hypotheses; five open known findings (pint passes, Prometheus refuses).",
     "technique": "Coq theorem relating two Gallina models (pint strict pipeline, Prometheus loader) over a shared node forest + reader "
                  "identity lemma + three-way differential correspondence + direct pint-vs-rulefmt.Parse oracle",
 }
